@@ -696,7 +696,7 @@ func main() {
 	nShared := run.N(3, 40)
 	wg.Add(1)
 	go spawn("shared", fmt.Sprintf("0-%d", nShared), 10*time.Minute, "crash-udp-shared")
-	nFuzz := run.N(6000, 600000)
+	nFuzz := run.N(6000, 120000)
 	per := nFuzz / 6
 	for i := 0; i < 6; i++ {
 		wg.Add(1)
